@@ -1,8 +1,180 @@
+import Corro.Model.Schema
 import Driver.Util
-/-! Driver stub for C15: not built yet. -/
+/-! Line-protocol driver for C15 (`Corro.Schema`).  Op and statement syntax: see `harness/src/c15.rs`. -/
 namespace Driver.C15
-abbrev State := Unit
-def init : State := ()
-def step (st : State) (_toks : List String) : Option (State × String) := some (st, "bad-op")
+open Corro.Schema
+
+/-! ### parsing -/
+
+def isLowerC (c : Char) : Bool := 'a' ≤ c && c ≤ 'z'
+def isUpperC (c : Char) : Bool := 'A' ≤ c && c ≤ 'Z'
+def isDigitC (c : Char) : Bool := '0' ≤ c && c ≤ '9'
+
+/-- identifiers: a lower-case letter, optionally followed by a digit or `_` and then `[a-z0-9_]*` -/
+def ident? (s : String) : Option String :=
+  match s.toList with
+  | [] => none
+  | c :: r =>
+    if !isLowerC c then none else
+    let second := match r with
+      | [] => true
+      | d :: _ => isDigitC d || d == '_'
+    if second && r.all (fun x => isLowerC x || isDigitC x || x == '_') then some s else none
+
+def distinct (xs : List String) : Bool := xs.eraseDups.length == xs.length
+
+def flags? (s : String) : Option (Bool × Bool × Bool) :=
+  if s = "-" then some (false, false, false) else
+  let cs := s.toList
+  if cs.isEmpty || !(cs.all (fun c => c == 'n' || c == 'p' || c == 'f')) || cs.eraseDups.length != cs.length then none
+  else some (cs.contains 'n', cs.contains 'p', cs.contains 'f')
+
+def parseCol (s : String) : Option (Name × Column) :=
+  match s.splitOn "/" with
+  | [n, ty, fl, d, g] => do
+    let n ← ident? n
+    if ty.isEmpty || !(ty.toList.all isUpperC) then none
+    let (nn, ip, fk) ← flags? fl
+    let dflt ← if d = "-" then some none
+      else if d.isEmpty || !(d.toList.all (fun c => isLowerC c || isDigitC c)) then none
+      else some (some d)
+    let gen ← if g = "-" then some none else
+      match g.toList with
+      | 'v' :: r => (ident? (String.ofList r)).map (fun src => some { src := src, stored := false : Gen })
+      | 's' :: r => (ident? (String.ofList r)).map (fun src => some { src := src, stored := true : Gen })
+      | _ => none
+    pure (n, { ty := ty, notNull := nn, dflt := dflt, gen := gen, inlinePk := ip, fk := fk, pk := false })
+  | _ => none
+
+def parseStmt (s : String) : Option Stmt :=
+  if s = "E" then some .syntaxError else
+  match s.splitOn ":" with
+  | ["U", t] => (ident? t).map (fun _ => .unsupported)
+  | ["T", name, cols, tpk] => do
+    let name ← ident? name
+    let cols ← (cols.splitOn ",").mapM parseCol
+    let names := cols.map (·.1)
+    if !distinct names then none
+    -- a generated column copies an ordinary column of the same table
+    if !(cols.all (fun e => match e.2.gen with
+        | some g => cols.any (fun o => o.1 == g.src && o.2.gen.isNone)
+        | none => true)) then none
+    let inl := (cols.filter (fun e => e.2.inlinePk)).length
+    if inl > 1 then none
+    let (tpk, ex) ← if tpk = "-" then some (none, false) else
+      let (body, ex) := if tpk.endsWith "!" then (String.ofList (tpk.toList.dropLast), true) else (tpk, false)
+      match (body.splitOn ".").mapM ident? with
+      | some l => if distinct l && l.all (fun n => names.contains n) && inl == 0 then some (some l, ex) else none
+      | none => none
+    pure (.table name cols tpk ex)
+  | ["I", name, tbl, cols, whr, u] => do
+    let name ← ident? name
+    let tbl ← ident? tbl
+    let cols ← (cols.splitOn ".").mapM ident?
+    if !distinct cols then none
+    let whr ← if whr = "-" then some none else (ident? whr).map some
+    let u ← if u = "u" then some true else if u = "-" then some false else none
+    pure (.index name tbl { cols := cols, whr := whr, unique := u })
+  | _ => none
+
+def parseStmts (toks : List String) : Option (List Stmt) :=
+  match toks with
+  | ["-"] => some []
+  | [] => none
+  | _ => toks.mapM parseStmt
+
+/-! ### canonical printing -/
+
+def insertSorted (lt : α → α → Bool) (x : α) : List α → List α
+  | [] => [x]
+  | y :: r => if lt x y then x :: y :: r else y :: insertSorted lt x r
+
+def sortBy (lt : α → α → Bool) (xs : List α) : List α := xs.foldl (fun acc x => insertSorted lt x acc) []
+
+def sortKeys {α : Type} (l : AList α) : AList α := sortBy (fun a b => a.1 < b.1) l
+
+def orDash (s : String) : String := if s.isEmpty then "-" else s
+
+def fnv (s : String) : UInt64 :=
+  s.toUTF8.foldl (fun h b => (h ^^^ b.toUInt64) * 0x100000001b3) 0xcbf29ce484222325
+
+def hex16 (x : UInt64) : String :=
+  let ds := Nat.toDigits 16 x.toNat
+  String.ofList (List.replicate (16 - ds.length) '0' ++ ds)
+
+def digest (rows : List Row) : String :=
+  let lines := rows.map (fun r => ",".intercalate (r.map (fun e => s!"{e.1}={e.2}")))
+  let lines := sortBy (fun a b => a < b) lines
+  s!"{rows.length}:{hex16 (fnv ("\n".intercalate lines))}"
+
+def showDbTable (e : Name × DbTable) : String :=
+  let t := e.2.tbl
+  let cols := t.cols.map (fun c =>
+    let g := match c.2.gen with
+      | none => "-"
+      | some g => if g.stored then "s" else "v"
+    s!"{c.1}/{c.2.ty}/{if c.2.notNull then "n" else "-"}/{c.2.dflt.getD "-"}/{g}")
+  let idx := (sortKeys t.idx).map (fun i => s!"{i.1}[{".".intercalate i.2.cols}:{if i.2.whr.isSome then "w" else "-"}]")
+  s!"{e.1}({",".intercalate cols}|pk={orDash (".".intercalate t.pk)}|idx={orDash (",".intercalate idx)}|crr={if e.2.crr then 1 else 0}|rows={digest e.2.rows})"
+
+def showMemTable (e : Name × Table) : String :=
+  let t := e.2
+  let cols := t.cols.map (fun c =>
+    let fl := (if c.2.notNull then "n" else "") ++ (if c.2.pk then "k" else "")
+    let g := match c.2.gen with
+      | none => "-"
+      | some g => "g" ++ g.src
+    s!"{c.1}/{c.2.ty}/{orDash fl}/{c.2.dflt.getD "-"}/{g}")
+  let idx := (sortKeys t.idx).map (fun i =>
+    s!"{i.1}[{".".intercalate i.2.cols}:{if i.2.whr.isSome then "w" else "-"}{if i.2.unique then "u" else ""}]")
+  s!"{e.1}({",".intercalate cols}|pk={orDash (".".intercalate t.pk)}|idx={orDash (",".intercalate idx)})"
+
+def showState (st : State) : String :=
+  let db := orDash (";".intercalate ((sortKeys st.db.tables).map showDbTable))
+  let mem := orDash (";".intercalate ((sortKeys st.mem).map showMemTable))
+  s!"db={db} mem={mem}"
+
+def errName : Err → String
+  | .empty => "empty" | .parse => "parse" | .unsupported => "unsupported"
+  | .indexWithoutTable => "index-without-table" | .pkExpr => "pk-expr"
+  | .notNullNeedsDefault => "not-null-needs-default" | .foreignKey => "foreign-key"
+  | .uniqueIndex => "unique-index" | .dropTable => "drop-table" | .removeColumn => "remove-column"
+  | .changeColumn => "change-column" | .addPk => "add-pk" | .modifyPk => "modify-pk"
+  | .importedPkMismatch => "imported-pk-mismatch" | .importedColsMismatch => "imported-cols-mismatch"
+  | .sqlite => "sqlite"
+
+/-! ### the loop -/
+
+abbrev DState := Corro.Schema.State
+def init : DState := State.init
+
+def step (st : DState) (toks : List String) : Option (DState × String) :=
+  match toks with
+  | "submit" :: rest => do
+    let stmts ← parseStmts rest
+    let (st', out) := submit st stmts
+    let v := match out with
+      | .ok _ => "ok"
+      | .error e => "err " ++ errName e
+    pure (st', s!"{v} {showState st'}")
+  | "extern" :: rest => do
+    let stmts ← parseStmts rest
+    match externAll st.db.tables stmts with
+    | some tables' =>
+      let st' : State := { db := { tables := tables', persisted := st.db.persisted }, mem := st.mem }
+      pure (st', s!"ok {showState st'}")
+    | none => pure (st, s!"err sqlite {showState st}")
+  | ["rows", t, n] => do
+    let t ← ident? t
+    let n ← n.toNat?
+    if n > 50 then none
+    match insertRows st t n with
+    | some st' => pure (st', s!"ok {showState st'}")
+    | none => pure (st, s!"err no-table {showState st}")
+  | ["restart"] =>
+    let st' := restart st
+    some (st', s!"ok {showState st'}")
+  | _ => none
+
 end Driver.C15
 def main : IO Unit := Driver.runLoop Driver.C15.init Driver.C15.step
